@@ -18,8 +18,9 @@ type Term struct {
 }
 
 type TermStore struct {
-	byKey map[string]*Term
-	all   []*Term
+	byKey    map[string]*Term
+	all      []*Term
+	laneMemo map[int]laneInfo // simplify_bytes.go
 }
 
 func NewTermStore() *TermStore { return &TermStore{byKey: map[string]*Term{}} }
@@ -119,6 +120,9 @@ func (ts *TermStore) Op(op string, w int, args ...*Term) *Term {
 		if args[1] == args[2] {
 			return args[1]
 		}
+	}
+	if op == "bvor" {
+		return ts.recompose(ts.mk(op, w, "", nil, args...))
 	}
 	return ts.mk(op, w, "", nil, args...)
 }
